@@ -86,7 +86,7 @@ def _bx(v, j):
 def run(rep, tier, replay=None):
     prog = facts.load("std")
     table_rule(rep, prog)
-    syndrome_rule(rep, prog, [14] if tier == "quick" else [7, 14, 16])
+    syndrome_rule(rep, prog, [14, 16] if tier == "quick" else [7, 14, 16, 17])
     # the checksum window is the bytes actually consumed, however the source segments them
     from . import c19
     from .common import decode_paths
